@@ -422,6 +422,8 @@ def disp_interpreted(program, grp, s):
         except (A.Unknown, A.RaiseSignal, RecursionError, AttributeError, TypeError, KeyError) as u:
             return ('unknown', f"dispatcher not interpretable: {type(u).__name__}: {u}"[:200])
         want = expected(vals)
+        if r is not None and not (isinstance(r, A.AObj) and 'called' in r.attrs):
+            return ('unknown', f"the dispatcher's result was not followed by the interpreter: {r!r}"[:160])
         if want is None:
             okv = r is None and not called
         else:
